@@ -362,9 +362,11 @@ pub fn tnode(p: TreeParams) -> BoxedStrategy<TNode> {
     level
 }
 
-/// exponent of a power-of-two scaling: 0 in 85 % of the cases, else uniform in [-36, 36]
+/// exponent of a power-of-two scaling: 0 in 83 % of the cases, uniform in [-36, 36] in 14 %, and in 3 % an
+/// extreme one (|e| in 40..=110: magnitudes far below f64::EPSILON and far above 1e16, where "treat as zero"
+/// and "close enough" shortcuts written with absolute epsilons go wrong)
 pub fn scale_exp() -> BoxedStrategy<i8> {
-    prop_oneof![17 => Just(0i8), 3 => -36i8..=36].boxed()
+    prop_oneof![50 => Just(0i8), 8 => -36i8..=36, 1 => 40i8..=110, 1 => -110i8..=-40].boxed()
 }
 
 pub fn tree_spec(p: TreeParams) -> BoxedStrategy<TreeSpec> {
@@ -374,7 +376,7 @@ pub fn tree_spec(p: TreeParams) -> BoxedStrategy<TreeSpec> {
         tnode(p),
         proptest::collection::vec(any::<u16>(), 0..6),
         proptest::collection::vec(any::<u8>(), 0..6),
-        prop_oneof![9 => Just(0i8), 1 => -24i8..=24],
+        prop_oneof![36 => Just(0i8), 3 => -24i8..=24, 1 => prop_oneof![Just(-60i8), Just(-75), Just(60)]],
     )
         .prop_map(move |(pool, anchors, root, order, junk, leaf_scale)| TreeSpec { in_dim: p.in_dim, out_dim: p.out_dim, pool, anchors, root, order, junk, leaf_scale })
         .boxed()
